@@ -183,6 +183,18 @@ def run_contract(qualname, scenario_index, tier, seed, falsify_n, deadline=None)
                     out["exceptions"].append(ob.meta["detail"])
             if not any(k == "ok" for _, k, _, _ in results):
                 out["outside"] = "no path terminated normally"
+            # cover check (vacuity guard): the assumptions of every completed path must be satisfiable
+            for tr, kind, val, pc in results:
+                if kind != "ok":
+                    continue
+                sv = z3.Solver()
+                sv.set("timeout", 2000)
+                for a in core.PI_AXIOMS:
+                    sv.add(a)
+                for a in pc:
+                    sv.add(a)
+                if sv.check() == z3.unsat:
+                    out["outside"] = "vacuous contract: the path condition " + "".join("T" if b else "F" for b in tr) + " is unsatisfiable"
             # frame obligation (C17): on no feasible path does the code write into a buffer owned by
             # the caller (ghost ownership flag of the input arrays, propagated through views)
             lemmas = set()
